@@ -32,6 +32,7 @@ type specEnv struct {
 	pkg     *types.Package
 	results []specVal
 	noLocal bool // evaluating a callee contract at a call site: only binds are visible
+	pure    bool // static pre-pass (loop write sets): no assertions may be added to the script
 }
 
 // specEnv for the function under verification.
@@ -1046,7 +1047,7 @@ func (se *specEnv) debugName(name string) (specVal, bool) {
 // typed records that a heap cell read in a specification holds a value of its Go type (every
 // reachable Go value is within its type's range). Skipped under quantifiers (bound variables).
 func (se *specEnv) typed(v Term, t types.Type) {
-	if strings.Contains(v.S, "q_") {
+	if strings.Contains(v.S, "q_") || se.pure || strings.Contains(v.S, "POISON") {
 		return
 	}
 	ra := se.e.tr.rangeAssumption(v, t, 0)
@@ -1146,7 +1147,12 @@ var builtinGhosts = map[string]string{
 // purify names a scalar heap read by a constant with a defining equation: arithmetic over named
 // constants is decided far faster than arithmetic over array-select terms (z3 stalls on
 // mixed integer/real goals whose atoms contain selects). Reads under a quantifier keep their term.
-func (se *specEnv) purify(t Term) Term { return se.e.purify(t) }
+func (se *specEnv) purify(t Term) Term {
+	if se.pure || strings.Contains(t.S, "POISON") {
+		return t
+	}
+	return se.e.purify(t)
+}
 
 func (e *Enc) purify(t Term) Term {
 	if strings.Contains(t.S, "q_") || (t.Sort != SInt && t.Sort != SReal && t.Sort != SBool) || !strings.HasPrefix(t.S, "(select ") {
